@@ -423,6 +423,23 @@ func init() {
 				}
 			}
 		}
+		// the literal null right where a reader gives up (a Decode function must look for null
+		// at the start of the input, not where its reader stopped)
+		failing := []string{"-", "- ", "+", "--", "9223372036854775808", "-9223372036854775809", "18446744073709551616", "2147483648", "-2147483649", "4294967296",
+			"1.", "1e", "1e+", "1e999", "-1e999", "0.", "t", "tr", "tru", "f", "fals", "n", "nu", "nul", `"ab` + "\t", `"`, `"\`, `"\u12`, ",", "[", "{", "]", "x", "\x00"}
+		for _, fp := range failing {
+			fp = strings.ReplaceAll(strings.ReplaceAll(fp, "\\t", "\t"), "\\x00", "\x00")
+			for _, tail := range []string{"null", " null", "null ", "\tnull", "nul", "null1"} {
+				tail = strings.ReplaceAll(tail, "\\t", "\t")
+				for _, pre := range []string{"", " "} {
+					in := pre + fp + tail
+					for _, t := range tys {
+						e.emit("dec %s %s %s", t.name, hs([]byte(in)), t.inits[1])
+					}
+					e.emit("dec str %s %s %s", hs([]byte(in)), hs([]byte("old")), r.pick([]string{"nil", "-", hs([]byte("zz"))}))
+				}
+			}
+		}
 		docs := 800
 		if thorough {
 			docs = 20000
